@@ -13,12 +13,16 @@ use std::process::{Command, Stdio};
 use std::sync::mpsc;
 use std::time::{Duration, Instant};
 
-pub const VERIF_ROOT: &str = "/verif";
+/// The verification root: `bin/check` exports it (its own parent directory), so
+/// that a snapshot of /verif run elsewhere reads and writes its own files.
+pub fn verif_root() -> PathBuf {
+    std::env::var("VERIF_ROOT").map(PathBuf::from).unwrap_or_else(|_| PathBuf::from("/verif"))
+}
 
 /// Where evidence and replay files go; `VERIF_OUT` redirects them when the
 /// simulator is pointed at a scratch copy of the repository (sensitivity runs).
 pub fn out_root() -> PathBuf {
-    std::env::var("VERIF_OUT").map(PathBuf::from).unwrap_or_else(|_| PathBuf::from(VERIF_ROOT))
+    std::env::var("VERIF_OUT").map(PathBuf::from).unwrap_or_else(|_| verif_root())
 }
 
 #[derive(Debug, Clone, Serialize, Deserialize)]
@@ -460,7 +464,7 @@ pub struct KnownEntry {
 }
 
 pub fn load_known() -> Result<Vec<KnownEntry>, String> {
-    let p = Path::new(VERIF_ROOT).join("known_findings.json");
+    let p = verif_root().join("known_findings.json");
     if !p.exists() {
         return Ok(vec![]);
     }
